@@ -880,6 +880,8 @@ def c19_post(res, tier, seed):
             core = core.split("(")[0]
             i = core.find("bspline::")
             core = core[i:].strip()
+            if "vf::" in core or "std::" in core or "gen::" in core:
+                continue
             if core and re.match(r"^bspline::[\w:~+\-*/=!<> ]+$", core):
                 names.add(core)
     res.counters["instantiated-library-entities-over-archetype"] = len(names)
